@@ -35,18 +35,18 @@ _DEFAULT_DIR = [None]
 
 
 def _factory():
-    from typing import List
+    from typing import List, Optional
 
     from jsonargparse import ActionConfigFile, ArgumentParser
 
     from ..fixtures import Base
 
     if _DEFAULT_DIR[0] is None:
-        d = os.path.join(tempfile.gettempdir(), "vf_c09_defaults")  # fixed location: it shows up in --help output
+        d = os.path.join(tempfile.gettempdir(), "vf_c09_defaults2")  # fixed location: it shows up in --help output
         os.makedirs(d, exist_ok=True)
         tmp = os.path.join(d, f".defaults.{os.getpid()}")
         with open(tmp, "w") as f:
-            f.write("a: 21\nfit:\n  x: 9\n")
+            f.write("a: 21\ntags+: [extra]\nopt: 2.5\nfit:\n  x: 9\n")
         os.replace(tmp, os.path.join(d, "defaults.yaml"))
         _DEFAULT_DIR[0] = d
     p = ArgumentParser(exit_on_error=False, prog="app", default_config_files=[os.path.join(_DEFAULT_DIR[0], "defaults.yaml")])
@@ -54,6 +54,8 @@ def _factory():
     p.add_argument("--a", type=int, default=1)
     p.add_argument("--b", type=int, default=0)
     p.add_argument("--m", type=Base, default=None)
+    p.add_argument("--tags", type=List[str], default=["base"])
+    p.add_argument("--opt", type=Optional[float], default=None)
     p.link_arguments("a", "b")
     fit = ArgumentParser(exit_on_error=False)
     fit.add_argument("--cfg", action=ActionConfigFile)
@@ -69,7 +71,7 @@ def _factory():
 def _const_cfg():
     from jsonargparse import Namespace
 
-    return Namespace(a=3, b=3, m=Namespace(class_path="vf.fixtures.Sub1", init_args=Namespace(w=2, z=0.5, k=4)), subcommand="fit", fit=Namespace(x=4))
+    return Namespace(a=3, b=3, m=Namespace(class_path="vf.fixtures.Sub1", init_args=Namespace(w=2, z=0.5, k=4)), tags=["t"], opt=None, subcommand="fit", fit=Namespace(x=4))
 
 
 def _plain(v):
